@@ -122,6 +122,7 @@ class Fn:
         self.reachable = j.get('reachable', False)
         self.vis = j.get('vis')
         self.in_macro_crate = 'lazy_static' in self.file or self.file.startswith('/root/.cargo')
+        self.is_helper = bool(j.get('helper'))
         self._succ = None
         self._pred = None
         self._dom = {}
@@ -510,6 +511,9 @@ def expr_fields(e):
 
 class Facts:
     def __init__(self, j):
+        from .flatten import flatten
+        j, helpers = flatten(j)
+        self.helpers = helpers
         self.j = j
         self.fns = {}
         self.all_fns = []
@@ -534,7 +538,23 @@ class Facts:
     def crate_fns(self):
         """Bodies written in this crate's own source (macro-expanded lazy_static plumbing excluded)."""
         # unit-test modules (only present in the `test` configuration) are not part of the library's behaviour
-        return [f for f in self.all_fns if not f.in_macro_crate and not (self.is_test and '::test::' in f.name)]
+        # new helper functions are analysed inlined at their call sites (dsa/flatten.py), not on their own
+        return [f for f in self.all_fns if not f.in_macro_crate and not (self.is_test and '::test::' in f.name) and not (f.is_helper and self._helper_inlined(f))]
+
+    def _helper_inlined(self, f):
+        cache = getattr(self, '_hi', None)
+        if cache is None:
+            cache = self._hi = set()
+            for g in self.all_fns:
+                for b in g.blocks:
+                    t = b['term']
+                    if t and t.get('inlined_call'):
+                        cache.add(t['inlined_call'])
+        if f.name in cache:
+            return True
+        # a helper working on a mutex-protected core has no meaning outside its caller's critical section
+        prot = ('JobQueueCore', 'PipeStreamCore', 'SchedulerFutureResult', 'DrainWakerState', 'MutexGuard')
+        return any(any(p in i for p in prot) for i in f.j.get('inputs', []))
 
     def children(self, fn):
         return [f for f in self.all_fns if f.parent == fn.name and f.is_closure]
